@@ -29,6 +29,11 @@ fn main() {
   match args.first().map(|s| s.as_str()) {
     Some("run") => run(&args[1..]),
     Some("gen") => gen(&args[1..]),
+    Some("traits") => {
+      for l in rarena_verif_harness::autotraits::table() {
+        println!("{l}");
+      }
+    }
     _ => usage(),
   }
 }
